@@ -61,8 +61,8 @@ func c13Run(c *Ctx) {
 			switch r.Intn(4) {
 			case 0:
 				in.dims[d] = mon.Dim{Param: r.PickStr("N", "batch", "seq", "", "N", "batch", "7", "16", "+4", "007", "0", "-1", "1e3")}
-				if in.dims[d].Param == "" {
-					in.dims[d] = mon.Dim{Unset: true}
+				if in.dims[d].Param == "" && r.Bool() {
+					in.dims[d] = mon.Dim{Unset: true} // (else: a dim_param that is present but empty)
 				}
 			case 1:
 				in.dims[d] = mon.Dim{Unset: true}
